@@ -13,7 +13,8 @@ ID = 'C10'
 TECHNIQUE = 'exhaustive enumeration of all well-formed registry files in a small scope x all query strings up to a length bound, implementation vs reference model; boundary queries on every entry of the shipped files'
 RULE = ('configurations = every registry text built from the line pool (ranges over {0,1,2} of length 1-2, single '
         'and multi-range lines, property sets) in every file shape of the scope (1-3 top-level lines, children, '
-        'grandchildren, dedents); inputs = every query of length 0..4 over {0,1,2,3}; plus every range endpoint, '
+        'grandchildren, dedents), registries read and dropped one after the other, a quarter of them also over three other '
+        'prefix alphabets (punctuation, letters, non-ASCII); inputs = every query of length 0..4 over {0,1,2,3}; plus every range endpoint, '
         'endpoint-1, endpoint+1 of the 17 shipped files and tests/numdb-test.dat followed by nothing / one character / '
         'child endpoints. state = (file, query) pair; oracle: NumDB.info == reference info, split consistent and '
         'lossless. non-trivial = pairs whose reference answer has a matched (property-carrying or multi-part) split.')
@@ -22,6 +23,9 @@ ASSUMPTIONS = ['reference semantics are the statement of C10 verbatim (vp/refs/n
 
 R1 = [('0', '0'), ('0', '1'), ('1', '2'), ('2', '2'), ('00', '00'), ('00', '11'), ('01', '20'), ('10', '22')]
 P = ['', 'a="1"', 'a="2"', 'b="3"', 'c="x\\y # z"', 'a-b_9="\\"']
+
+
+ALPHABET_MAPS = [str.maketrans('0123', '.:_~'), str.maketrans('0123', '/A\u00e9\u00ff'), str.maketrans('0123', '$az{')]
 
 
 def rtxt(r):
@@ -87,6 +91,9 @@ def plan(ctx):
     return items
 
 
+_HIST = {}
+
+
 def _compare(res, db, ref, q, what, fileid, text=None):
     from stdnum import numdb  # noqa: F401
     try:
@@ -108,6 +115,8 @@ def _compare(res, db, ref, q, what, fileid, text=None):
         case = {'kind': what, 'file': fileid, 'query': q}
         if text is not None:
             case['text'] = text
+            if _HIST.get('prev'):
+                case['prev'] = _HIST['prev']
         res.viol(ID, bad[0], 'stdnum.numdb', 'info', case, bad[1], 'reference semantics',
                  excinfo=what, devclass='', rank=[0, len(text or '') + len(q), (text or fileid) + q])
     return nontrivial
@@ -154,10 +163,17 @@ def work(item):
         _k, idx, tier = item
         qs = queries(4 if tier != 'thorough' else 5)
         files = 0
+        prev_text = None
+        db = None
         for i, text in enumerate(file_shapes(tier)):
             if i % NCHUNK != idx:
                 continue
             files += 1
+            # registries come and go: the previous one is dropped before the next is read (an answer must not depend
+            # on a registry that no longer exists); the previous text is part of the replayable case
+            db = None
+            _HIST['prev'] = prev_text
+            prev_text = text
             try:
                 db = numdb.read(io.StringIO(text))
             except Exception as e:  # noqa: B902
@@ -168,6 +184,23 @@ def work(item):
             for q in qs:
                 n += 1
                 nt += _compare(res, db, ref, q, 'gen', 'generated', text)
+            # the same file over other prefix alphabets (anything but '-', ',' and blanks may be a prefix character):
+            # order-preserving translations of the digits, every 4th file in quick
+            if tier == 'thorough' or files % 4 == 0:
+                for mp in ALPHABET_MAPS:
+                    tt = text.translate(mp)
+                    try:
+                        dbt = numdb.read(io.StringIO(tt))
+                    except Exception as e:  # noqa: B902
+                        res.viol(ID, 'read-raises', 'stdnum.numdb', 'read', {'kind': 'gen', 'file': 'generated', 'query': '', 'text': tt},
+                                 repr(e), 'parsed', excinfo='gen', rank=[1, len(tt), tt])
+                        continue
+                    reft = numdb_ref.parse(tt)
+                    _HIST['prev'] = None
+                    for q in qs[:86]:
+                        n += 1
+                        nt += _compare(res, dbt, reft, q.translate(mp), 'gen', 'generated', tt)
+                    dbt = None
             # a caller that modifies what it got back must not change what the registry says afterwards
             for q in qs[:86]:
                 try:
@@ -223,6 +256,16 @@ def replay(case):
     res = Result()
     if case['kind'].startswith('gen'):
         text = case['text']
+        if case.get('prev'):
+            # the registry that was read, queried and dropped before this one
+            try:
+                dbp = numdb.read(io.StringIO(case['prev']))
+                for q in queries(4):
+                    dbp.info(q)
+                    dbp.split(q)
+            except Exception:
+                pass
+            dbp = None
     else:
         text = open(os.path.join(core.REPO, case['file']), encoding='utf-8').read()
     try:
